@@ -17,6 +17,7 @@
 #include <fstream>
 #include <iostream>
 #include <regex>
+#include <set>
 #include <sstream>
 #include <unordered_set>
 
@@ -147,7 +148,7 @@ static Known const* match_known(std::string const& site, std::string const& cls)
 struct Failure {
     std::vector<std::uint64_t> words;
     std::uint64_t enum_idx = 0;
-    bool is_enum = false;
+    bool is_enum = false, from_corpus = false;
     std::string cls, msg, desc;
 };
 struct SiteStats {
@@ -255,6 +256,7 @@ static void write_result(std::string const& path, std::string const& mode, std::
                 o << "\"enum_idx\":\"" << f.enum_idx << "\"";
             else
                 o << "\"words\":" << jwords(f.words);
+            if (f.from_corpus) o << ",\"corpus\":\"1\"";
             o << "}";
         }
         o << "]}";
@@ -370,7 +372,8 @@ int main(int argc, char** argv)
                                                                                        : "FAIL";
         std::printf("REPLAY %s site=%s\n  case: %s\n", k, sname.c_str(), d.c_str());
         if (o.kind == Outcome::FAIL) {
-            Known const* kn = match_known(sname, o.fclass);
+            // an input from the in-region corpus satisfied the property on the reference tree: any failure counts, listed or not
+            Known const* kn = jfield(js, "corpus").empty() ? match_known(sname, o.fclass) : nullptr;
             std::printf("  class: %s\n  %s\n", o.fclass.c_str(), o.msg.c_str());
             if (kn) {
                 std::printf("  known-finding: %s\n", kn->id.c_str());
@@ -473,6 +476,107 @@ int main(int argc, char** argv)
             }
         }
         write_result(out, mode, stats, which, seed);
+        return any_fail ? 1 : 0;
+    }
+
+    if (mode == "harvest") {
+        // in-region corpus (DESIGN 9.5): cases that lie inside an oracle-side cause region and satisfy the property on this tree.
+        // Output lines: site <TAB> region <TAB> words (decimal, space separated, trailing zeros dropped)
+        int cases = std::stoi(arg(a, "--cases", "100000"));
+        int nwords = std::stoi(arg(a, "--words", "16"));
+        std::size_t per = std::stoull(arg(a, "--per", "8"));
+        std::ofstream f(out);
+        for (std::size_t si : which) {
+            Site const& site = sites[si];
+            std::uint64_t x = mix(seed, std::hash<std::string>{}(site.name)) | 1;
+            auto next = [&] {
+                x ^= x << 13;
+                x ^= x >> 7;
+                x ^= x << 17;
+                return x;
+            };
+            std::map<std::string, std::size_t> have;
+            std::unordered_set<std::uint64_t> seen;
+            std::vector<std::uint64_t> words(static_cast<std::size_t>(nwords));
+            for (int c = 0; c < cases; ++c) {
+                for (auto& wd : words) wd = next();
+                // sparse vectors as well: a few leading words, the rest zero (the simplest operands)
+                if (c % 3 == 1)
+                    for (std::size_t i = 2 + static_cast<std::size_t>(next() % 6); i < words.size(); ++i) words[i] = 0;
+                Outcome o;
+                Words w{words.data(), words.size(), 0};
+                site.run(w, o, nullptr);
+                if (o.kind != Outcome::PASS || o.region.empty()) continue;
+                std::size_t& n = have[o.region];
+                if (n >= per || !seen.insert(o.fp).second) continue;
+                bool stable = true;
+                for (int rep = 0; rep < 2 && stable; ++rep) {
+                    Outcome o2;
+                    Words w2{words.data(), words.size(), 0};
+                    site.run(w2, o2, nullptr);
+                    stable = o2.kind == Outcome::PASS && o2.region == o.region;
+                }
+                if (!stable) continue;
+                ++n;
+                std::size_t last = std::min(words.size(), w.i);  // words the decoder never read do not matter
+                while (last > 0 && words[last - 1] == 0) --last;
+                f << site.name << '\t' << o.region << '\t';
+                for (std::size_t i = 0; i < last; ++i) f << (i ? " " : "") << words[i];
+                f << '\n';
+            }
+        }
+        return 0;
+    }
+
+    if (mode == "corpus") {
+        // replays the in-region corpus: every line satisfied the property when it was harvested, so a failure now is reported
+        // whether or not its class is a listed finding
+        std::ifstream f(arg(a, "--corpus"));
+        std::map<std::string, std::size_t> index;
+        for (std::size_t si : which) index[sites[si].name] = si;
+        std::string line;
+        std::set<std::size_t> used;
+        while (std::getline(f, line)) {
+            auto t1 = line.find('\t');
+            auto t2 = line.find('\t', t1 + 1);
+            if (t1 == std::string::npos || t2 == std::string::npos) continue;
+            auto it = index.find(line.substr(0, t1));
+            if (it == index.end()) continue;
+            std::size_t si = it->second;
+            used.insert(si);
+            Site const& site = sites[si];
+            SiteStats& st = stats[si];
+            std::vector<std::uint64_t> words;
+            std::istringstream ws(line.substr(t2 + 1));
+            std::uint64_t v;
+            while (ws >> v) words.push_back(v);
+            words.resize(std::max<std::size_t>(words.size(), 64), 0);
+            Outcome o;
+            Words w{words.data(), words.size(), 0};
+            site.run(w, o, nullptr);
+            if (o.kind == Outcome::FAIL) {
+                ++st.cases;
+                ++st.fails;
+                std::string cls = "in-region-regression/" + o.fclass;
+                ++st.failclasses[cls];
+                bool have = false;
+                for (auto const& fl : st.failures) have = have || fl.cls == cls;
+                if (!have && st.failures.size() < 4) {
+                    Failure fl;
+                    fl.words = words;
+                    fl.from_corpus = true;
+                    fl.cls = cls;
+                    fl.msg = o.msg + " (this input, inside region " + line.substr(t1 + 1, t2 - t1 - 1) + ", satisfied the property on the reference tree)";
+                    fl.desc = describe_words(site, words);
+                    st.failures.push_back(fl);
+                    any_fail = true;
+                }
+                continue;
+            }
+            account(si, st, o, false);
+        }
+        std::vector<std::size_t> u2(used.begin(), used.end());
+        write_result(out, mode, stats, u2, seed);
         return any_fail ? 1 : 0;
     }
 
